@@ -1,13 +1,15 @@
 package main
 
 import (
-	"net"
 	"errors"
 	"fmt"
+	"github.com/rs/zerolog/diode/verifh/gstate"
 	"io"
+	"net"
 	"os"
 	"os/exec"
 	"strings"
+	"time"
 
 	"github.com/rs/zerolog"
 	"github.com/rs/zerolog/diode/verifh/evid"
@@ -101,7 +103,9 @@ type c14case struct {
 }
 
 // panicEntry: the event is started with Logger.Panic() (its level is then PanicLevel)
-func (c *c14case) panicEntry(ei int) bool { return c.levels[ei] == zerolog.PanicLevel && (c.salt/3+ei)%2 == 0 }
+func (c *c14case) panicEntry(ei int) bool {
+	return c.levels[ei] == zerolog.PanicLevel && (c.salt/3+ei)%2 == 0
+}
 
 // nested: the event carries nested dictionaries and an array of dictionaries
 func (c *c14case) nested(ei int) bool { return (c.salt/2+ei)%3 == 1 }
@@ -124,6 +128,9 @@ func (c *c14case) String() string {
 }
 
 func c14run(out *evid.Out, c *c14case) {
+	if c14stuck {
+		return // a logging call of an earlier case is still parked: one report is enough
+	}
 	dests := make([]*faultW, c.d)
 	ws := make([]io.Writer, c.d)
 	for i := 0; i < c.d; i++ {
@@ -214,7 +221,9 @@ func c14run(out *evid.Out, c *c14case) {
 	for ei := 0; ei < c.e; ei++ {
 		h0 := len(handled)
 		var pan interface{}
-		func() {
+		callDone := make(chan struct{})
+		go func() {
+			defer close(callDone)
 			defer func() { pan = recover() }()
 			var e *zerolog.Event
 			if c.panicEntry(ei) {
@@ -248,6 +257,11 @@ func c14run(out *evid.Out, c *c14case) {
 				e.Send()
 			}
 		}()
+		if !c14await(callDone) {
+			out.Violate("logging-call-never-returns", fmt.Sprintf("event %d: the logging call is parked on a lock inside zerolog with nothing left that could release it (%s); %s", ei, c14blockedWhere, c), rep)
+			c14stuck = true
+			return
+		}
 		if pan != nil {
 			out.Violate("panic", fmt.Sprintf("logging call panicked: %v in %s", pan, c), rep)
 			return
@@ -340,6 +354,49 @@ func c14run(out *evid.Out, c *c14case) {
 		}
 		if !ok {
 			out.Violate("dest-log", fmt.Sprintf("destination %d received %v, specified %v; %s", di, got, want, c), rep)
+		}
+	}
+}
+
+var c14stuck bool
+var c14blockedWhere string
+
+// c14await waits for one logging call. "the logging call still returns normally": a call that is parked in a
+// sync primitive inside zerolog on three looks in a row, while it is the only goroutine of the case, can never return
+// (nobody else holds what it waits for). The wall clock only decides when to look.
+func c14await(done chan struct{}) bool {
+	parked := 0
+	for i := 0; ; i++ {
+		wait := 50 * time.Millisecond
+		if i == 0 {
+			wait = 2 * time.Second
+		}
+		select {
+		case <-done:
+			return true
+		case <-time.After(wait):
+		}
+		found := false
+		for _, g := range gstate.Snapshot() {
+			if g.Has("main.c14run.func") && g.Has("github.com/rs/zerolog.") {
+				found = true
+				if gstate.Parked(g.State) && (strings.Contains(g.State, "Mutex") || strings.Contains(g.State, "semacquire") || strings.Contains(g.State, "sync.")) {
+					parked++
+					c14blockedWhere = g.State + ": " + firstLines(g.Text, 6)
+				} else {
+					parked = 0
+				}
+			}
+		}
+		if !found {
+			parked = 0
+		}
+		if parked >= 3 {
+			return false
+		}
+		if i > 600 {
+			fmt.Println("HARNESS-INCONCLUSIVE c14: a logging call neither returned nor parked for 30 s")
+			os.Exit(2)
 		}
 	}
 }
